@@ -33,8 +33,8 @@ def run_scenario(hist, sender_computes=False):
         # a process must run before the processes it ships to: order = by first appearance as a sender
         order = []
         for st in hist:
-            if st["a"] in ("input", "derive") and st["p"] not in order:
-                order.append(st["p"])
+            if st["a"] in ("input", "derive", "ship") and st["p"] not in order:
+                order.append(st["p"])       # a receiver that creates nothing itself still has to run
         for pid in order:
             os.makedirs(os.path.join(d, f"work{pid}"), exist_ok=True)
             p = subprocess.run([sys.executable, SHIPRUN, sf, str(pid), d, os.path.join(d, f"work{pid}")], capture_output=True, text=True,
@@ -78,6 +78,18 @@ def valid_for_replay(hist):
             seen_ship = True
         if st["a"] == "compute" and seen_ship and owner.get(st["i"]) != first:
             return True
+    return False
+
+
+def ships_derived(hist):
+    kind = {}
+    nh = 0
+    for st in hist:
+        if st["a"] in ("input", "derive", "ship"):
+            nh += 1
+            kind[nh] = st["a"] if st["a"] != "ship" else kind[st["i"]]
+            if st["a"] == "ship" and kind[st["i"]] == "derive":
+                return True
     return False
 
 
@@ -126,10 +138,13 @@ def run(chk):
     hs = []
     for steps in (5, 6, 7):
         got = plangraph.histories(chk, n * 3, steps, chk.seed + steps, procs='{"p1", "p2"}', maxh=5, targets="{}", label=f"ship{steps}")
-        hs += [h for h in got if valid_for_replay(h["hist"])][:n // 2 + 1]
+        ok = [h for h in got if valid_for_replay(h["hist"])]
+        # prefer scenarios that ship a DERIVED array (its plan carries operations and lazy targets, not just an input)
+        ok.sort(key=lambda h: not ships_derived(h["hist"]))
+        hs += ok[:n // 2 + 1]
     for k, hrec in enumerate(hs):
         hist, taint = hrec["hist"], sorted(hrec["taint"])
-        outs = run_scenario(hist, sender_computes=(k % 2 == 1))
+        outs = run_scenario(hist, sender_computes=(k % 3 != 0))
         fails = [o for o in outs if not o["ok"]]
         chk.case(key=str(hist), nontrivial=True,
                  sample=dict(history=[(st["a"], st["p"], st["i"], st["j"]) for st in hist], model_taint=taint, outcomes=outs[:3]) if k % 10 == 1 else None)
